@@ -101,8 +101,23 @@ func (w *world) lossyThreads() []int {
 }
 
 // readerStep is ONE receive of the consumer of thread t's subscription: it takes the change being
-// offered, if any (got).  The pipelines are at rest before and after.
+// offered, if any (got).  The pipelines are at rest before and after.  The reading "nothing is
+// offered" is taken TWICE (a short pause and a second look at the wait states in between): on a
+// heavily loaded machine (load average ~40) one run in two produced a single `subscriber-cut-off`
+// on the unchanged tree -- the first look had found every goroutine blocked and nothing offered, the
+// sentinel arrived a moment later.  Nothing else moves between the two looks (the controller is the
+// only mover), so a second "nothing" is the same observation; a change that does turn up is taken
+// as this step's receive.  A subscriber that really is cut off still never receives its sentinel.
 func (w *world) readerStep(t int) (got bool, err error) {
+	got, err = w.readerStepOnce(t)
+	if err != nil || got {
+		return got, err
+	}
+	time.Sleep(200 * time.Microsecond)
+	return w.readerStepOnce(t)
+}
+
+func (w *world) readerStepOnce(t int) (got bool, err error) {
 	if err := settle(); err != nil {
 		return false, err
 	}
